@@ -86,7 +86,7 @@ func TestC16SQLiteHandlerReplies(t *testing.T) {
 			t.Fatalf("handler: %v", err)
 		}
 		s := startSess(h)
-		defer s.cancel()
+		defer func() { s.cancel() }()
 		world := &gen.World{Authors: gen.Pubkeys(2)}
 		cfg := &gen.StoreCfg{World: world, TsBase: 1000, TsSpan: 7, NoNoD: true, NoOpenRefs: true, UnicodeText: true}
 		var submitted []*mocrelay.Event
@@ -146,7 +146,7 @@ func TestC16SQLiteHandlerReplies(t *testing.T) {
 		}
 		for i := 0; i < n; i++ {
 			lab := fmt.Sprintf("m%d.", i)
-			switch k := rapid.IntRange(0, 19).Draw(t, lab+"type"); {
+			switch k := rapid.IntRange(0, 21).Draw(t, lab+"type"); {
 			case k < 11:
 				var e *mocrelay.Event
 				op := rapid.IntRange(0, 9).Draw(t, lab+"op")
@@ -207,6 +207,23 @@ func TestC16SQLiteHandlerReplies(t *testing.T) {
 				if _, err := s.ask(&mocrelay.ClientCloseMsg{SubscriptionID: sub}); err != nil {
 					hx.Fail(t, ev.Failure{Property: "C16", Signature: "sqlite-handler-stalled", Clause: "CLOSE is consumed", Case: desc(), Observed: err.Error()})
 				}
+			case k >= 20:
+				// the client disconnects and a new session begins on the same handler
+				how := rapid.SampledFrom([]string{"cancel", "close"}).Draw(t, lab+"restart")
+				briefs = append(briefs, "RESTART-"+how)
+				types["RESTART"] = true
+				if how == "cancel" {
+					s.cancel()
+				} else {
+					close(s.recv)
+				}
+				select {
+				case <-s.ret:
+				case <-time.After(20 * time.Second):
+					hx.Fail(t, ev.Failure{Property: "C16", Signature: "sqlite-handler-stalled", Clause: "a session ends when the client disconnects", Case: desc(), Observed: "ServeNostr did not return"})
+				}
+				s.cancel()
+				s = startSess(h)
 			default:
 				e := &mocrelay.Event{Pubkey: world.Authors[0], Kind: 22242, CreatedAt: 1, Tags: []mocrelay.Tag{}}
 				gen.Seal(e)
